@@ -294,8 +294,18 @@ func (m *moduleEngine) DoneInstantiation() {
 // FunctionInstanceReference implements wasm.ModuleEngine.
 func (m *moduleEngine) FunctionInstanceReference(funcIndex wasm.Index) wasm.Reference {
 	if funcIndex < m.module.Source.ImportFunctionCount {
+		// Not the address of the import's slot in the opaque, whose index-in-module field is zero:
+		// LookupFunction would resolve such a reference to function 0 of the defining module.
 		begin, _, _ := m.parent.offsets.ImportedFunctionOffset(funcIndex)
-		return uintptr(unsafe.Pointer(&m.opaque[begin]))
+		slot := (*functionInstance)(unsafe.Pointer(&m.opaque[begin]))
+		lf := &functionInstance{
+			executable:             slot.executable,
+			moduleContextOpaquePtr: slot.moduleContextOpaquePtr,
+			typeID:                 slot.typeID,
+			indexInModule:          m.importedFunctions[funcIndex].indexInModule,
+		}
+		m.localFunctionInstances = append(m.localFunctionInstances, lf)
+		return uintptr(unsafe.Pointer(lf))
 	}
 	localIndex := funcIndex - m.module.Source.ImportFunctionCount
 	p := m.parent
